@@ -49,6 +49,7 @@ EMB = {
     'expr_all':          [Emb(['_['], ']', B0 + ('value', 'slice')), Emb(['('], ')', B0 + ('value',)), Emb(['_('], ')', B0 + ('value', 'args'), 'one')],     # documented: whatever a subscript takes, except that a lone `*a` WITHOUT a comma stays a Starred (judge)
     'expr_arglike':      [Emb(['('], ')', B0 + ('value',)), Emb(['_('], ')', B0 + ('value', 'args'), 'one')],
     'keyword':           Emb(['_('], ')', B0 + ('value', 'keywords'), 'one', 'k=_'),
+    '_arglike':          [Emb(['_('], ')', B0 + ('value', 'args'), 'one'), Emb(['_('], ')', B0 + ('value', 'keywords'), 'one', 'k=_')],
     'arguments':         Emb(['def _('], '): pass', B0 + ('args',), placeholder='_h'),
     'arguments_lambda':  Emb(['(lambda '], ': None)', B0 + ('value', 'args'), placeholder='_h'),
     'arg':               [Emb(['def _('], '): pass', B0 + ('args', 'args'), 'one'), Emb(['def _(*'], '): pass', B0 + ('args', 'vararg'))],
@@ -184,6 +185,8 @@ def judge1(mode, src, e, ts):
             if mode == '_comprehension_ifs' and sum(t.string == 'if' for t in ts) < len(nodes):
                 return ('invalid', 'fewer if keywords than conditions')
         else:
+            if (first.lineno <= k or last.end_lineno - k > src.count('\n') + 1) and not isinstance(first, (ast.Tuple, ast.MatchSequence)):
+                return ('invalid', 'the element extends into the wrapper (it uses the delimiters of the embedding as its own)')
             s = (first.lineno - k, first.col_offset)
             if getattr(first, 'decorator_list', None):
                 s = (first.decorator_list[0].lineno - k, 0)
@@ -273,6 +276,7 @@ HOSTILE = {
     'expr_all': ['*a\n ,', '*ab\n  ,', '*a  # c\n ,', '*é\n  ,', '*a,', '*a\n,', '*a', 'a:b', 'a:b:c, d', 'a, b', 'a,\nb', '*a, *b', '*a\n, b', 'x for x in y', '', 'a := b', 'yield', '*not a', '*a\n  ,  # c',
                  '*(a)\n ,', '*a \\\n ,', ')+(', 'a][b', 'a)(b', ':', '*a:b'],
     'expr_arglike': ['*a', '*not a', 'a, b', 'a=b', '**a', 'x for x in y', ')(', 'a)(b', '', 'a:b'],
+    '_arglike': ['a for x in y', '(a for x in y)', '*a', '**k', 'k=v', 'a, b', 'a=b, c', '', 'a)(b', ')(', '*not a', 'k=x for x in y', 'a := b', 'yield', '(yield)', 'a,', 'k=v,'],
     'keyword': ['a=1', 'a=1, b=2', '**k', 'a', 'a=1)(b=2', 'a=1), _(b=2', '', 'a=(yield)', 'a = 1,', 'a=1 # c', '*a', 'a==1', 'a=x for x in y'],
     'arguments': [')->(', 'a)->(b', 'a, b=1, /, c, *, d, **e', '', '*', 'a=', 'a: int=3', '*a: *b', '): pass\ndef g(', 'a,', '/', 'self, /,', '**k,'],
     'arguments_lambda': [': lambda', 'a: b', 'a, *b, c=1, **d', '', 'a=1: None)+(lambda', 'a,', '*'],
@@ -362,6 +366,35 @@ def stage_whole(ctx: Ctx, progs):
                 d = cmp_ast(f.a, ref, positions=True)
                 if d:
                     ctx.violation(f'whole-tree|{how}', 'the tree differs from CPython\'s parse', {'src': src, 'diffs': d})
+        if pi == 0:
+            # line endings: the lines the tree is positioned on must be the lines CPython positioned it on - every node's source must be readable
+            for lsrc in ['x = 1\r\ny = 2', 'a = 1\r\n', 'a\rb', 'if x:\r    y\r', 's = \'\'\'a\rb\'\'\'\nt = 1', 'a = 1\r\nb = "c\rd"\r\n', 'a = 1 \\\r\n  + 2\r\n']:
+                try:
+                    ref = ast.parse(lsrc)
+                except (SyntaxError, ValueError):
+                    continue
+                ctx.tick(('whole-eol', lsrc), 'whole:line-endings')
+                try:
+                    f = fst.FST(lsrc, 'exec')
+                except (SyntaxError, ValueError, fst.NodeError):
+                    continue      # refusing such a source is consistent
+                except Exception as e:
+                    ctx.violation('line-endings|lone-carriage-return' if re.search(r'\r(?!\n)', lsrc) else f'line-endings|crash|{type(e).__name__}',
+                                  'building a tree from a source with carriage returns crashed', {'src': lsrc, 'error': repr(e)[:200]})
+                    continue
+                try:
+                    ok = f.src == lsrc and not cmp_ast(f.a, ref, positions=True)
+                    for g in f.walk(True):
+                        if isinstance(g.a, (ast.stmt, ast.expr)) and g.loc is not None:
+                            seg = ast.get_source_segment(lsrc, g.a)
+                            if seg is not None and g.src.replace('\r', '\n') != seg.replace('\r\n', '\n').replace('\r', '\n') and g.src != seg:
+                                ok = False
+                    if not ok:
+                        ctx.violation('line-endings|inconsistent', 'the tree built from a source with carriage returns is not positioned on its own lines', {'src': lsrc, 'lines': list(f.lines)})
+                except Exception as e:
+                    sig = 'line-endings|lone-carriage-return' if re.search(r'\r(?!\n)', lsrc) else 'line-endings|unreadable'
+                    ctx.violation(sig, 'reading node sources of a tree built from a source with carriage returns raised (CPython counts a lone \\r as a line break, the stored lines do not)',
+                                  {'src': lsrc, 'lines': list(f.lines), 'error': repr(e)[:200]})
         # an expression in eval mode
         exprs = [n for n in ast.walk(ast.parse(src0)) if isinstance(n, ast.expr) and not isinstance(n, (ast.Starred, ast.Slice))]
         if exprs:
@@ -524,6 +557,7 @@ def stage_fragments(ctx: Ctx, progs):
         for m, l in fragments_from(t, rng).items():
             pool[m] += l
     per_mode = ctx.scale(45, 600)
+    pool['_arglike'] = pool.get('expr_arglike', [])[::2] + pool.get('keyword', [])[::2]
     pool['expr_all'] = pool.get('expr', [])[::3] + pool.get('expr_slice', [])[::2] + pool.get('expr_arglike', [])[::3]
     for mode in EMB:
         if mode == 'exec':
